@@ -597,6 +597,23 @@ func (l *Loop) classifyCall(sx *symx.Ctx, c ssa.CallInstruction) {
 		}
 		return
 	}
+	// a helper that merges one (key, value) into a map it is given
+	if g := cc.StaticCallee(); g != nil && len(g.Blocks) > 0 {
+		if mi, ki, vi, isMax, ok := mapMergeHelper(g); ok && mi < len(cc.Args) && ki < len(cc.Args) && vi < len(cc.Args) {
+			m, k, v := cc.Args[mi], cc.Args[ki], cc.Args[vi]
+			switch {
+			case l.loopLocalAddr(m):
+			case isMax:
+				// keeps the larger value per key: commutative, associative, idempotent
+				l.Notes = append(l.Notes, g.Name()+": max-merge into a map")
+			case l.isLoopKey(k) && !l.dependsOnCarried(v):
+				l.Notes = append(l.Notes, g.Name()+": map[loop key] = f(key, value)")
+			default:
+				l.add("E5", c.Pos(), m, "%s assigns the map at a key that is not the loop key inside a map iteration (colliding keys: last writer wins)", g.Name())
+			}
+			return
+		}
+	}
 	all, keys := sx.CallWrites(c)
 	name := ssau.CallName(c)
 	if !all && len(keys) == 0 {
@@ -664,4 +681,77 @@ func TotalSortOfBasic(call *ssa.Call) bool {
 		return len(call.Common().Args) == 1
 	}
 	return false
+}
+
+// mapMergeHelper: g's only effect is m[k] = v for three of its parameters,
+// either unconditionally or only to raise the entry (v > m[k], or no entry
+// yet). Returns the parameter positions and whether it is the raising form.
+func mapMergeHelper(g *ssa.Function) (mi, ki, vi int, isMax, ok bool) {
+	pidx := func(v ssa.Value) int {
+		for i, p := range g.Params {
+			if v == ssa.Value(p) {
+				return i
+			}
+		}
+		return -1
+	}
+	var ups []*ssa.MapUpdate
+	bad := false
+	ssau.ForEachInstr(g, true, func(in ssa.Instruction) {
+		switch x := in.(type) {
+		case *ssa.MapUpdate:
+			ups = append(ups, x)
+		case *ssa.Store, *ssa.Send, *ssa.Go, *ssa.Defer, *ssa.Panic:
+			bad = true
+		case *ssa.Call:
+			if _, isB := x.Common().Value.(*ssa.Builtin); !isB {
+				bad = true
+			}
+		}
+	})
+	if bad || len(ups) != 1 {
+		return 0, 0, 0, false, false
+	}
+	mu := ups[0]
+	mi, ki, vi = pidx(mu.Map), pidx(mu.Key), pidx(mu.Value)
+	if mi < 0 || ki < 0 || vi < 0 {
+		return 0, 0, 0, false, false
+	}
+	// raising form: every path to the update passes `v > cur` (cur the entry
+	// looked up under the same key) or `!ok` of that lookup
+	cut := map[[2]int]bool{}
+	for _, iff := range ssau.Ifs(g) {
+		if ex, isEx := iff.Cond.(*ssa.Extract); isEx && ex.Index == 1 {
+			if lk, isLk := ex.Tuple.(*ssa.Lookup); isLk && lk.X == mu.Map && lk.Index == mu.Key {
+				cut[[2]int{iff.Block().Index, 1}] = true // !ok
+			}
+			continue
+		}
+		op, x, y, okc := ssau.CondOf(iff.Cond)
+		if !okc {
+			continue
+		}
+		isCur := func(v ssa.Value) bool {
+			switch c := v.(type) {
+			case *ssa.Lookup:
+				return c.X == mu.Map && c.Index == mu.Key
+			case *ssa.Extract:
+				lk, isLk := c.Tuple.(*ssa.Lookup)
+				return isLk && c.Index == 0 && lk.X == mu.Map && lk.Index == mu.Key
+			}
+			return false
+		}
+		switch {
+		case x == mu.Value && isCur(y) && (op == token.GTR || op == token.GEQ):
+			cut[[2]int{iff.Block().Index, 0}] = true
+		case isCur(x) && y == mu.Value && (op == token.LSS || op == token.LEQ):
+			cut[[2]int{iff.Block().Index, 0}] = true
+		case x == mu.Value && isCur(y) && (op == token.LEQ || op == token.LSS):
+			cut[[2]int{iff.Block().Index, 1}] = true
+		case isCur(x) && y == mu.Value && (op == token.GEQ || op == token.GTR):
+			cut[[2]int{iff.Block().Index, 1}] = true
+		}
+	}
+	isMax = len(cut) > 0 && !ssau.ReachableAvoidingEdges(g, mu.Block(), cut)
+	return mi, ki, vi, isMax, true
 }
